@@ -12,6 +12,7 @@ RULE = ('seeded stacks of depth 1..3 of generated wrapping functions (own parame
         '(return value or exception type); sigtools.signature == inspect.signature; accepted non-colliding shapes must not raise '
         'TypeError; wrappers.wrappers order; method binding removes exactly the first parameter (instance vs class access). '
         'Stacks also repeat one wrapping function on neighbouring levels, use functools.partial objects as wrapping callables, and are built level by level with every intermediate object inspected first. '
+        'Decorated things are also callable objects (ordinary / static __call__); Combination members may raise (StopIteration, KeyError, ValueError). '
         'Non-trivial: every decorated object whose signature was retrieved; distinct by (function, stack, placement).')
 ASSUMPTIONS = ['decorator and decorated function use disjoint parameter names (same names are the documented embed failure)',
                'Combination soundness is only demanded when the combined functions use names in consistent roles (stated)']
